@@ -127,6 +127,8 @@ MUTANTS: List[Tuple[str, List[Tuple[str, str, str]], List[Tuple[str, str]]]] = [
     ('f23-additional-data-kept', [(M, "        self._additional_data.pop(start_from_node_id, None)\n", "        pass\n")], [('C11', 'RC-8')]),
     ('f24-forced-default-inside-retry', [(M, "        n_attempts = 1\n        while True:\n            try:\n                logger.debug('Start execution node_id=%s', node_id)", "        n_attempts = 1\n        while True:\n            try:\n                if force_default:\n                    return run_node_default(node, **kwargs)\n                logger.debug('Start execution node_id=%s', node_id)")], [('C12', 'RT-7')]),
     ('f27-retry-catches-cancellation', [(M, "                if not isinstance(error, Exception):\n", "                if False:\n")], [('C12', 'RT-2'), ('C13', 'RT-2')]),
+    ('f38-stopiteration-through-executor', [(N, "functools.partial(_run_in_executor, run_method, *args, **kwargs),", "functools.partial(run_method, *args, **kwargs),")], [('C02', 'EX-6')]),
+    ('ex5-wrapper-drops-kwargs', [(N, "        return run_method(*args, **kwargs)\n    except StopIteration as ex:", "        return run_method(*args)\n    except StopIteration as ex:")], [('C17', 'EX-5')]),
     ('rt6-default-without-opt-in', [(M, "            except Exception:\n                if node.use_default:\n                    return run_node_default(node, **kwargs)\n\n                raise", "            except Exception:\n                return run_node_default(node, **kwargs)")], [('C12', 'RT-6')]),
     ('ev1-complete-before-run', [(C, "        await ctx.emit_on_pipeline_start()\n", "        await ctx.emit_on_pipeline_start()\n        await ctx.emit_on_pipeline_complete(result=None)\n")], [('C14', 'EV-1')]),
     ('ev1-error-path-no-complete', [(C, "            result = PipelineResult(pipeline_id=pipeline_id, value=None, error=ex)\n            await ctx.emit_on_pipeline_complete(result=result)\n", "            result = PipelineResult(pipeline_id=pipeline_id, value=None, error=ex)\n")], [('C14', 'EV-1')]),
@@ -232,6 +234,34 @@ BENIGN: List[Tuple[str, List[Tuple[str, str, str, bool]]]] = [
 ]
 
 
+# Repaired variants for rules whose instance on today's tree is a recorded finding: after the edit (a sketch of a
+# repair - enough to restore the structural condition, not a reviewed fix) the named rule must hold on the named construct.
+REPAIRS: List[Tuple[str, List[Tuple[str, str, str]], List[Tuple[str, str, str]]]] = [
+    ('repair-on5-unmark-on-cancel', [(M, "            # TODO: Needs to reorganize saving policy for artifact storage\n            await self.ctx.save_node_result(node_id, result)\n\n        finally:",
+                                     "            # TODO: Needs to reorganize saving policy for artifact storage\n            await self.ctx.save_node_result(node_id, result)\n\n        except asyncio.CancelledError:\n            self._node_storage.processed_nodes.delete(node_id)\n            raise\n\n        finally:")],
+     [('C04', 'ON-5', '_run_node::')]),
+    ('repair-rd8-error-test', [(M, "            await self._lock_manager.wait_for_event(node_id)\n\n            return self._node_storage.get_node_result(node_id)",
+                               "            await self._lock_manager.wait_for_event(node_id)\n\n            if not dag.is_oneof and self._node_storage.exists_node_error(node_id):\n                raise self._node_storage.get_node_result(node_id)\n\n            return self._node_storage.get_node_result(node_id)")],
+     [('C05', 'RD-8', 'second requester')]),
+    ('repair-rc9-publish-error', [(M, "                logger.debug('The subgraph should be stopped. There is an error in %s', name)\n                return",
+                                  "                logger.debug('The subgraph should be stopped. There is an error in %s', name)\n                self._node_storage.set_node_result(node_id, RecurrentSubgraphDoesNotHaveResultError(dict(node_id=node_id)))\n                await self.__unlock_itself(node_id)\n                await self.__unlock_descendants(node_id)\n                return")],
+     [('C11', 'RC-9', 'error exit')]),
+    ('repair-ev6-isolate-managers', [(E, "            if callback:\n                await callback(ctx=self, **kwargs)", "            if callback:\n                try:\n                    await callback(ctx=self, **kwargs)\n                except Exception:  # noqa: BLE001\n                    pass")],
+     [('C14', 'EV-6', 'raising event manager')]),
+    ('repair-oo9-contain-switch-error', [(M, "        except Exception as ex:\n            # The switch task is the only place where the error can be seen, so the run method must be notified.\n            await self.__raise_exc(ex)",
+                                         "        except Exception as ex:\n            if dag.is_oneof:\n                self._node_storage.set_node_result(node_id, ex)\n                await self.__unlock_descendants(node_id)\n                return None\n            else:\n                await self.__raise_exc(ex)")],
+     [('C10', 'OO-9', '__raise_exc(ex)')]),
+    ('repair-cc8-own-edges', [(M, "        node_predecessors = set(self.dag.graph.predecessors(node_id))", "        node_predecessors = set(dag.predecessors(node_id))")],
+     [('C09', 'CC-8', 'dependencies inside a sub-dag')]),
+    ('repair-lk8-consult-cancelling', [(M, "                await self.ctx.emit_on_node_complete(node_id=node_id, error=error)\n\n                n_attempts += 1",
+                                       "                if asyncio.current_task().cancelling():\n                    raise error\n\n                await self.ctx.emit_on_node_complete(node_id=node_id, error=error)\n\n                n_attempts += 1")],
+     [('C13', 'LK-8', 'no new attempt')]),
+    ('repair-er7-record-cancelled', [(M, "            coro_task.cancel()\n            logger.debug('Task %s has been cancelled', coro_task.get_name())",
+                                     "            coro_task.cancel()\n            _ENGINE_CANCELLED.registry.add(coro_task)\n            logger.debug('Task %s has been cancelled', coro_task.get_name())")],
+     [('C05', 'ER-7', 'ended cancelled')]),
+]
+
+
 def _copy_tree(repo: str, dst: str) -> None:
     for pkg in ('ml_pipeline_engine', 'ml_pipeline_viewer'):
         shutil.copytree(os.path.join(repo, pkg), os.path.join(dst, pkg),
@@ -296,6 +326,8 @@ def _run_one(args) -> dict:
             new = [(i.rule, i.construct) for i in instances if i.verdict == 'VIOLATION' and (pid, i.rule, i.construct) not in known
                    and (kind != 'benign' or (pid, i.rule, tag(i.construct)) not in known_tags)]
             out['results'][pid] = {'violations': new}
+            if kind == 'repair':
+                out['results'][pid]['instances'] = [(i.rule, i.construct, i.verdict) for i in instances]
         return out
     finally:
         shutil.rmtree(tmp, ignore_errors=True)
@@ -316,6 +348,12 @@ def run(repo: str, props: Optional[List[str]] = None, jobs: int = 16, only: Opti
         if only and bid not in only:
             continue
         tasks.append(('benign', bid, edits, props or ALL_PROPS, repo))
+    for rid, edits, expect in REPAIRS:
+        if only and rid not in only:
+            continue
+        ps = sorted({p for p, r, c in expect if props is None or p in props})
+        if ps:
+            tasks.append(('repair', rid, edits, ps, repo))
     with ProcessPoolExecutor(max_workers=jobs) as ex:
         results = list(ex.map(_run_one, tasks))
     expect_of = {mid: expect for mid, edits, expect in MUTANTS}
@@ -324,6 +362,22 @@ def run(repo: str, props: Optional[List[str]] = None, jobs: int = 16, only: Opti
     for r in results:
         if r['status'] == 'not-applicable':
             summary['not_applicable'].append(f"{r['id']}: {r['why']}")
+            continue
+        if r['kind'] == 'repair':
+            exp = next(e for rid, ed, e in REPAIRS if rid == r['id'])
+            for p_, rule, sub in exp:
+                if props is not None and p_ not in props:
+                    continue
+                summary['repairs'] = summary.get('repairs', 0) + 1
+                res = r['results'].get(p_, {})
+                if 'undecided' in res:
+                    summary['undecided'].append(f"{r['id']} [{p_}]: {res['undecided']}")
+                    continue
+                inst = [x for x in res.get('instances', []) if x[0] == rule and sub in x[1]]
+                if inst and all(x[2] == 'PASS' for x in inst):
+                    summary['repairs_recognised'] = summary.get('repairs_recognised', 0) + 1
+                else:
+                    summary.setdefault('repairs_not_recognised', []).append(f"{r['id']} [{p_} {rule}]: {[x[2] for x in inst] or 'no instance'}")
             continue
         if r['kind'] == 'mutant':
             for p_, rule in expect_of[r['id']]:
